@@ -1,0 +1,87 @@
+// This Source Code Form is subject to the terms of the Mozilla Public
+// License, v. 2.0. If a copy of the MPL was not distributed with this
+// file, You can obtain one at http://mozilla.org/MPL/2.0/.
+
+//go:build verif
+
+package keystorage
+
+// Contracts for the deductive verifier in /verif (govc). Comment-only file: it
+// adds no code. Lines starting with //@ are parsed by govc; see /verif/DESIGN.md.
+//
+// C20: guards of the slot set (second initialisation refused, existing slot never overwritten,
+// last slot never deleted), the integrity tag recomputed after every slot change (and only after
+// the change), and verified on every key retrieval. PGP and HMAC are used through assumed pure
+// contracts; the cryptographic strength of the tag is outside this family.
+
+//@ inline_matching ^api/key_storage\.\(\*\w+\)\.Get\w+$
+//@
+//@ ghostvar hashCalls int
+//@ ghostvar lastHash []byte
+//@ ghostvar hmacVerified bool
+//@
+//@ func isZero
+//@   props C20
+//@   pure
+//@   requires underlying != nil
+//@   ensures [zero-exact] result <==> (underlying.StorageVersion == 0 && len(underlying.KeySlots) == 0 && len(underlying.KeysHmacHash) == 0)
+//@
+//@ func (*KeyStorage).hashSlots
+//@   props C20
+//@   requires ks != nil
+//@   modifies hashCalls, lastHash
+//@   ghost hashCalls = hashCalls + 1
+//@   ghost lastHash = result
+//@   ensures [hash-recorded] hashCalls == old(hashCalls) + 1 && lastHash == result
+//@
+//@ func (*KeyStorage).verifyKeySlots
+//@   props C20
+//@   requires ks != nil
+//@   modifies hmacVerified, hashCalls, lastHash
+//@   ghost hmacVerified = (result == nil)
+//@   ensures [verified-flag] hmacVerified == (result == nil)
+//@
+//@ func (*KeyStorage).getKey
+//@   props C20
+//@   requires ks != nil
+//@   modifies hmacVerified, hashCalls, lastHash
+//@   ensures [integrity-checked-on-every-retrieval] result1 == nil ==> hmacVerified
+//@   ensures [slot-present] result1 == nil ==> in(slotID, ks.underlying.KeySlots) && ks.underlying.KeySlots[slotID] != nil
+//@   ensures [read-only] ks.underlying.KeySlots == old(ks.underlying.KeySlots) && ks.underlying.KeysHmacHash == old(ks.underlying.KeysHmacHash) &&
+//@     (forall k string :: in(k, ks.underlying.KeySlots) <==> old(in(k, ks.underlying.KeySlots))) && len(ks.underlying.KeySlots) == old(len(ks.underlying.KeySlots))
+//@
+//@ func (*KeyStorage).InitializeRnd
+//@   props C20
+//@   requires ks != nil && reader != nil
+//@
+//@ func (*KeyStorage).GetMasterKey
+//@   props C20
+//@   requires ks != nil
+//@   ensures [integrity-checked] result1 == nil ==> hmacVerified
+//@
+//@ func (*KeyStorage).DeleteKeySlot
+//@   props C20
+//@   requires ks != nil
+//@   at hashSlots #1
+//@     assert [tag-computed-after-delete] !in(slotID, ks.underlying.KeySlots)
+//@   ensures [last-slot-kept] old(len(ks.underlying.KeySlots)) <= 1 ==> result != nil && len(ks.underlying.KeySlots) == old(len(ks.underlying.KeySlots))
+//@   ensures [tag-recomputed] result == nil ==> ks.underlying.KeysHmacHash == lastHash && !in(slotID, ks.underlying.KeySlots)
+//@   ensures [failure-keeps-slots] result != nil ==> len(ks.underlying.KeySlots) == old(len(ks.underlying.KeySlots)) &&
+//@     (forall k string :: in(k, ks.underlying.KeySlots) <==> old(in(k, ks.underlying.KeySlots)))
+//@
+//@ func (*KeyStorage).AddKeySlot
+//@   props C20
+//@   requires ks != nil
+//@   at hashSlots #1
+//@     assert [tag-computed-after-insert] in(newSlotID, ks.underlying.KeySlots)
+//@   ensures [existing-slot-never-overwritten] old(in(newSlotID, ks.underlying.KeySlots)) && old(ks.underlying.KeySlots[newSlotID]) != nil ==>
+//@     result != nil && ks.underlying.KeySlots[newSlotID] == old(ks.underlying.KeySlots[newSlotID])
+//@   ensures [tag-recomputed] result == nil ==> ks.underlying.KeysHmacHash == lastHash && in(newSlotID, ks.underlying.KeySlots)
+//@   ensures [others-kept] forall k string :: k != newSlotID ==> (in(k, ks.underlying.KeySlots) <==> old(in(k, ks.underlying.KeySlots))) &&
+//@     ks.underlying.KeySlots[k] == old(ks.underlying.KeySlots[k])
+//@
+//@ func (*KeyStorage).Initialize
+//@   props C20
+//@   requires ks != nil
+//@   ensures [second-initialisation-refused] !(old(ks.underlying.StorageVersion) == 0 && old(len(ks.underlying.KeySlots)) == 0 && old(len(ks.underlying.KeysHmacHash)) == 0) ==> result != nil
+//@   ensures [tag-set] result == nil ==> ks.underlying.KeysHmacHash == lastHash && in(slotID, ks.underlying.KeySlots)
